@@ -89,7 +89,8 @@ impl Reader {
             raw::Reader::new(&mut callback_data_new).retrieve(&mut callback_data_new.error)?;
         let callback_data = CallbackData {
             file: callback_data_new.file.into_inner(),
-            seek_base: callback_data_new.seek_base.unwrap(),
+            // `seek_read` works with absolute file offsets.
+            seek_base: datafile_start + callback_data_new.seek_base.unwrap(),
             buffer: None,
             error: None,
         };
